@@ -270,7 +270,8 @@ def run(spec, ctx):
             C["iterators_started"] += 1
             live_now = [j for j in its if j not in closed]
             max_live = max(max_live, len(live_now))
-            if len(live_now) >= 2 and spec["pattern"] in SHARING:
+            owners_live = [owner[j] for j in live_now]
+            if len(live_now) >= 2 and (spec["pattern"] in SHARING or len(set(owners_live)) < len(owners_live)):
                 shared_live = True
         elif op in ("next", "drain"):
             j = step[1]
